@@ -106,6 +106,7 @@ func emitFacts(o *out) {
 		}
 		o.f("]\n\n")
 	}
+	emitShFacts(o)
 }
 
 var impRx = regexp.MustCompile(`(?m)^\t(?:(\w+) )?"([^"{]+)"$`)
@@ -149,4 +150,114 @@ func emitTemplate(o *out) {
 		hdr = tpl[:k]
 	}
 	o.f("/-- everything before `package main` (the build-constraint header) -/\ndef header : String := %s\n\n", leanStr(hdr))
+}
+
+// ---- sh facts (C16) ----
+
+func isAppendCall(e ast.Expr) *ast.CallExpr {
+	ce, ok := e.(*ast.CallExpr)
+	if !ok {
+		return nil
+	}
+	if id, ok := ce.Fun.(*ast.Ident); ok && id.Name == "append" && len(ce.Args) >= 1 {
+		return ce
+	}
+	return nil
+}
+
+// closure copies the captured slice before appending: append(append(<fresh>, args...), args2...)
+func closureCopies(fn string) string {
+	fd := findFunc("sh", fn)
+	if fd == nil {
+		return "none"
+	}
+	params := map[string]bool{}
+	for _, f := range fd.Type.Params.List {
+		for _, n := range f.Names {
+			params[n.Name] = true
+		}
+	}
+	found, ok := false, true
+	ast.Inspect(fd, func(n ast.Node) bool {
+		ce := isAppendCall2(n)
+		if ce == nil {
+			return true
+		}
+		// any append whose first operand is a captured parameter writes into the caller's array
+		if id, isId := ce.Args[0].(*ast.Ident); isId && params[id.Name] {
+			ok = false
+		}
+		if inner := isAppendCall(ce.Args[0]); inner != nil {
+			switch x := inner.Args[0].(type) {
+			case *ast.CallExpr, *ast.CompositeLit:
+				_ = x
+				found = true
+			}
+		}
+		return true
+	})
+	if found && ok {
+		return "some true"
+	}
+	return "some false"
+}
+
+func isAppendCall2(n ast.Node) *ast.CallExpr {
+	e, ok := n.(ast.Expr)
+	if !ok {
+		return nil
+	}
+	return isAppendCall(e)
+}
+
+// no statement of fn assigns through an index expression on one of its parameters named in names
+func noIndexedWrite(fn string, names ...string) string {
+	fd := findFunc("sh", fn)
+	if fd == nil {
+		return "none"
+	}
+	want := map[string]bool{}
+	for _, n := range names {
+		want[n] = true
+	}
+	// resolve by object: the parameter objects
+	objs := map[*ast.Object]bool{}
+	for _, f := range fd.Type.Params.List {
+		for _, n := range f.Names {
+			if want[n.Name] && n.Obj != nil {
+				objs[n.Obj] = true
+			}
+		}
+	}
+	if len(objs) != len(names) {
+		return "none"
+	}
+	clean := true
+	ast.Inspect(fd, func(n ast.Node) bool {
+		as, ok := n.(*ast.AssignStmt)
+		if !ok {
+			return true
+		}
+		for _, l := range as.Lhs {
+			if ix, ok := l.(*ast.IndexExpr); ok {
+				if id, ok := ix.X.(*ast.Ident); ok && objs[id.Obj] {
+					clean = false
+				}
+			}
+		}
+		return true
+	})
+	if clean {
+		return "some true"
+	}
+	return "some false"
+}
+
+func emitShFacts(o *out) {
+	o.f("/-- RunCmd / OutCmd copy the captured slice before appending the call's arguments -/\n")
+	o.f("def sh_RunCmd_copies : Option Bool := %s\n", closureCopies("RunCmd"))
+	o.f("def sh_OutCmd_copies : Option Bool := %s\n\n", closureCopies("OutCmd"))
+	o.f("/-- Exec / run never assign through args[...] or env[...] -/\n")
+	o.f("def sh_Exec_noWrite : Option Bool := %s\n", noIndexedWrite("Exec", "args", "env"))
+	o.f("def sh_run_noWrite : Option Bool := %s\n\n", noIndexedWrite("run", "args", "env"))
 }
